@@ -416,6 +416,7 @@ def leaf_catalogue():
             L.append({"op": "Planar", "dim": d, "negative_slope": ns})
             L.append({"op": "Planar", "dim": d, "negative_slope": ns, "cond_dim": 2})
         L.append({"op": "Planar", "dim": d, "negative_slope": 0.3, "pscale": 1.5})
+        L.append({"op": "Planar", "dim": d, "negative_slope": 2.5, "pscale": 1.5})  # slopes above 1 are legal
         L.append({"op": "Planar", "dim": d, "negative_slope": 0.3, "zero_w": True})
         L.append({"op": "Planar", "dim": d, "negative_slope": None, "zero_w": True})
     L += [{"op": "AdditiveCondition", "shape": (3,), "cond_shape": (2,)},
@@ -590,7 +591,7 @@ class Gen:
         if o == "TriangularAffine":
             return {"op": "TriangularAffine", "dim": shape[0], "lower": bool(rng.random() < 0.5), "neg": bool(rng.random() < 0.3)}
         if o == "Planar":
-            return {"op": "Planar", "dim": shape[0], "negative_slope": float(self.choice([0.1, 0.5, 0.9]))}
+            return {"op": "Planar", "dim": shape[0], "negative_slope": float(self.choice([0.1, 0.5, 0.9, 1.8]))}
         if o == "MAF":
             return {"op": "MAF", "dim": shape[0], "cond_dim": None, "transformer": self.transformer(),
                     "nn_width": int(rng.integers(2, 7)), "nn_depth": int(rng.integers(0, 3))}
